@@ -146,6 +146,7 @@ def logSem (C : CmpOps F) : Sem (LV F) where
 def logGrammar : Grammar where
   lvl := fun o => if isCmp o then 1 else if o = "not" then 2 else if o = "and" then 3
     else if o = "or" then 4 else 0
+  lvlPre := fun u => if u = "not" then 2 else 0
   okBin := fun o => isCmp o || o = "and" || o = "or"
   okPre := fun u => u = "not"
   okFn1 := fun _ => false
